@@ -184,3 +184,45 @@ Proof.
   intros Hd. unfold min_list. induction l as [|y l IH]; intros H; [exact Hd|].
   cbn [fold_right]. pose proof (H y (or_introl eq_refl)). specialize (IH (fun x Hx => H x (or_intror Hx))). lia.
 Qed.
+
+(** ** The fast variant used by the harness is the same function *)
+Section FastEq.
+  Variables (out inn : rate).
+  Hypothesis Ho : rate_ok out.
+  Hypothesis Hi : rate_ok inn.
+  Variable cb : list (Z * Z).
+
+  Lemma deliver_mult : forall k s, c_mult (deliver cb k s) = c_mult s.
+  Proof.
+    induction k as [|k IH]; intros s; [reflexivity|].
+    cbn [deliver]. rewrite IH. cbn [c_mult]. destruct (lookup (c_total s) cb); reflexivity.
+  Qed.
+
+  Lemma burst_x_eq : forall fuel t ntd s, st_ok (c_mult s) ->
+    burst out inn cb fuel t ntd s = burst_x out inn cb fuel t ntd s
+    /\ st_ok (c_mult (fst (burst_x out inn cb fuel t ntd s))).
+  Proof.
+    induction fuel as [|f IH]; intros t ntd s Hs; cbn [burst burst_x].
+    - destruct (t - c_clock0 s >=? ntd); split; try reflexivity; exact Hs.
+    - destruct (t - c_clock0 s >=? ntd); [|split; [reflexivity | exact Hs]].
+      destruct (mult_next_x_eq out inn (c_mult s) Ho Hi Hs) as [E K]. rewrite E.
+      destruct (mult_next_x out inn (c_mult s)) as [r m']. cbn [snd] in K.
+      destruct r; try (split; [reflexivity | exact K]).
+      apply IH. cbn [c_mult]. rewrite deliver_mult. exact K.
+  Qed.
+
+  Lemma clock_steps_x_eq dmin : forall rds s, st_ok (c_mult s) ->
+    clock_steps out inn cb dmin rds s = clock_steps_x out inn cb dmin rds s.
+  Proof.
+    induction rds as [|[t chg] rds IH]; intros s Hs; [reflexivity|].
+    cbn [clock_steps clock_steps_x]. unfold clock_step, clock_step_x.
+    set (s' := match chg with Some d => set_tempo d s | None => s end).
+    assert (Hs' : st_ok (c_mult s')) by (unfold s'; destruct chg; exact Hs).
+    destruct (burst_x_eq (Z.to_nat ((t - c_clock0 s') / dmin) + 1) t (c_dur s') s' Hs') as [E K].
+    rewrite E. destruct (burst_x out inn cb (Z.to_nat ((t - c_clock0 s') / dmin) + 1) t (c_dur s') s') as [s2 r].
+    cbn [fst] in K. destruct r; try reflexivity. rewrite (IH s2 K). reflexivity.
+  Qed.
+
+  Lemma clock_run_x_eq d0 t0 rds : clock_run out inn cb d0 t0 rds = clock_run_x out inn cb d0 t0 rds.
+  Proof. unfold clock_run, clock_run_x. apply clock_steps_x_eq. exact I. Qed.
+End FastEq.
